@@ -1149,10 +1149,43 @@ func (g *g) heredoc(n string) string {
 	h := &HD{Op: op, DelimText: delim}
 	var wordTxt string
 	var wparts []string
-	switch g.ch.Intn(8, "hd_quote") {
+	decoy := "" // the literal parts of a delimiter that also has "$" syntax in it
+	form := g.ch.Intn(11, "hd_quote")
+	if form == 10 && (g.bq || g.o.NoSubst) {
+		form = 8
+	}
+	switch form {
 	default:
 		wordTxt = delim
 		wparts = []string{skel.Lit(delim)}
+	case 8:
+		// no expansion is done on the delimiter: "$x" in it is text
+		nm := g.pick("hd_dollar", "x", "1", "$", "{y}")
+		decoy = delim
+		wordTxt = delim + "$" + nm
+		if nm == "{y}" {
+			wparts = []string{skel.Lit(delim), skel.Param(true, "y", "", skel.Nil)}
+		} else {
+			wparts = []string{skel.Lit(delim), skel.Param(false, nm, "", skel.Nil)}
+		}
+		delim = wordTxt
+		h.DelimText = delim
+		g.f("heredoc_delimiter_with_dollar_syntax")
+	case 9:
+		decoy = delim
+		wordTxt = `"` + delim + `$$"`
+		wparts = []string{skel.Quote(`"`, []string{skel.Lit(delim), skel.Param(false, "$", "", skel.Nil)})}
+		delim = delim + "$$"
+		h.DelimText = delim
+		h.Quoted = true
+		g.f("heredoc_delimiter_with_dollar_syntax")
+	case 10:
+		decoy = delim
+		wordTxt = "`c`" + delim
+		wparts = []string{skel.CmdSubst(false, []string{skel.Cmd(skel.Simple(nil, []string{skel.Word([]string{skel.Lit("c")})}), nil)}), skel.Lit(delim)}
+		delim = wordTxt
+		h.DelimText = delim
+		g.f("heredoc_delimiter_with_dollar_syntax")
 	case 7:
 		// double quotes with an escaped character inside: the delimiter is the
 		// word after quote removal
@@ -1198,10 +1231,61 @@ func (g *g) heredoc(n string) string {
 	}
 	nl := []int{1, 2, 0, 3, 4}[g.ch.Intn(5, "hd_lines")]
 	for i := 0; i < nl; i++ {
-		k := g.ch.Intn(17, "hd_line")
+		k := g.ch.Intn(19, "hd_line")
 		line := ""
 		if k == 14 && h.Quoted {
 			k = 0
+		}
+		if (form == 8 || form == 10) && (k == 2 || k == 3 || k == 4 || k == 6 || k == 7 || k == 14) {
+			// the look-alike lines would be scanned for the delimiter's "$" syntax
+			k = 0
+		}
+		if k == 17 {
+			// what is left of the delimiter without its "$" syntax
+			k = 0
+			if decoy != "" {
+				lit += decoy + "\n"
+				body.WriteString(decoy + "\n")
+				g.f("heredoc_line_with_literal_parts_of_delimiter")
+				continue
+			}
+		}
+		if k == 18 {
+			// the delimiter text at the end of a line, behind an expansion or an escape
+			k = 0
+			if !h.Quoted && !g.bq && !g.o.NoSubst && form < 8 {
+				switch g.ch.Intn(6, "hd_tail_delim") {
+				case 0:
+					flush()
+					ps = append(ps, skel.Param(true, "x", "", skel.Nil))
+					line = "${x}"
+				case 1:
+					flush()
+					ps = append(ps, skel.Param(false, "1", "", skel.Nil))
+					line = "$1"
+				case 2:
+					flush()
+					ps = append(ps, skel.Quote(`\`, []string{skel.Lit("$")}))
+					line = `\$`
+				case 3:
+					flush()
+					ps = append(ps, skel.CmdSubst(true, []string{skel.Cmd(skel.Simple(nil, []string{skel.Word([]string{skel.Lit("c")})}), nil)}))
+					line = "$(c)"
+				case 4:
+					flush()
+					ps = append(ps, skel.Arith([]string{skel.Lit("1")}))
+					line = "$((1))"
+				case 5:
+					lit += "a "
+					flush()
+					ps = append(ps, skel.Param(false, "?", "", skel.Nil))
+					line = "a $?"
+				}
+				lit += delim + "\n"
+				body.WriteString(line + delim + "\n")
+				g.f("heredoc_line_ending_in_delimiter_behind_expansion")
+				continue
+			}
 		}
 		if k == 15 {
 			// a double quote is not special in a here-document: the backslash
